@@ -59,6 +59,10 @@ def text_variant(mol: Mol, rng):
 
 
 def run_case(ctx, case):
+    return common.case_guard(ctx, case, _run_case)
+
+
+def _run_case(ctx, case):
     import tucan.io.molfile_reader as mr
     plan = PLAN[ctx.tier]
     rng = random.Random(case["vseed"])
